@@ -25,6 +25,10 @@ SUMMARY = {
 'c08f':'pre-roll flush holds back the tail only when the last fill left the buffer full: after a short read that is not the end, the start of a spanning match is written as non-match and as many bytes after it are lost',
 'c17h':'process-wide static remembers the length of the last finished stream and shrinks the next roll buffer, lower-bounded by min instead of min+1: with a pattern >= 1 KiB a stream search right after a short one is truncated',
 'c18g':'writer / closure errors of kind BrokenPipe end stream replacement quietly with Ok(())',
+'c07g':'single-pass min/max slip in the NFA compiler: max_pattern_len comes out too small (0) whenever the first pattern is the longest, so the roll buffer retains too little and a match spanning a refill underflows (panic)',
+'c08g':'Buffer::roll uses a non-overlapping copy clamped to the front length: when fewer than max_pattern_len new bytes arrived since the last roll the retained tail keeps stale bytes (offsets stay correct, bytes written / handed to the closure are wrong)',
+'c17i':'packed::Searcher builds a first-bytes set lazily, one fetch_or per pattern, and treats any non-zero value as complete: a thread (or a clone) that looks while another thread is still filling it rejects haystacks that do match (no UB; sequential use always correct)',
+'c18h':'the done flag is latched after any fill that did not return Ok(true): after a transient read error the next poll returns None although the reader never reported EOF',
 'c18a':'fill returns Ok(true) instead of the error when it had already buffered bytes in the same call: one-shot read errors during the initial fill vanish',
 'c18b':'closure errors of kind Interrupted are retried by calling the closure again: error swallowed, partial output duplicated',
 'c18c':'fill commits its new end only after the loop: an error on a later read of one fill discards bytes accepted earlier; polling on shifts all later offsets',
@@ -40,6 +44,8 @@ for line in sorted(open(os.path.join(ROOT, 'mutants/RESULTS-seeded.txt'))):
     m = re.search(r'\| (C\d\d) exit=(\d) class=(\S+) replay_exit=(\S+)', line)
     if not m: continue
     engine = {'C07': 'streamsim', 'C08': 'streamsim', 'C18': 'streamsim fault enumeration', 'C17': 'threadsim'}[m.group(1)]
+    if name == 'c17i':
+        engine = 'mirisim only (first-use race class: barrier-synchronised start, short first haystacks, wide alphabets); first missed'
     if name == 'c17h':
         engine = 'threadsim (after adding long-pattern searchers; first missed: patterns were <= 40 bytes)'
     if name == 'c17d':
